@@ -112,7 +112,7 @@ def make(shape: Dict[str, Any]) -> Any:
         for i, ev in enumerate(shape['events']):
             # with loop-back of the instance's own multicast only true back-to-back copies are 'in immediate succession on the same
             # socket' (later ones may have the instance's own reply between them, which is another datagram on that socket)
-            sym[f'dgap{i}'] = ctx.int(f'dgap{i}', 0, 0 if shape.get('loopback') else 999)
+            sym[f'dgap{i}'] = ctx.int(f'dgap{i}', 0, 0 if shape.get('loopback') else shape.get('dgap_max', 999))
             sym[f'off{i}'] = prev + ctx.int(f'gap{i}', 0 if i == 0 else shape.get('min_gap', 0), 1500)
             prev = sym[f'off{i}'] + sym[f'dgap{i}']
             if ev['kind'] == 'response':
@@ -163,6 +163,8 @@ QUICK = {
     'response-repeat-after-1s': {'events': [rs('P1'), dict(rs('P1'), same_as_previous=True)], 'min_gap': 1001},
     'qu-query-then-response': {'events': [qy((N1, SRV, True)), rs('P2 S2+')], 'sighted': ['SRV']},
     'query-then-response': {'events': [qy((T1, PTR, False)), rs('P2')]},
+    'qu-query-recent-then-qm-query': {'events': [qy((N1, SRV, True)), qy((T1, PTR, False))], 'sighted': ['SRV']},
+    'tc-qu-query-recent-then-qm-query': {'events': [qy((T1, PTR, True), tc=True), qy((N1, TXT, False))], 'sighted': ['PTR'], 'dgap_max': 399},  # (a copy arriving after the 400..500 ms hold is a new truncated query of its own)
     'qu-query-not-recent': {'events': [qy((N1, SRV, True))]},
     'loopback-qu-query-not-recent': {'events': [qy((N1, SRV, True))], 'loopback': True},
     'loopback-qm-srv-query': {'events': [qy((N1, SRV, False))], 'loopback': True},
